@@ -138,6 +138,18 @@ func Catalogue(world string) map[string]Query {
 			Sell: &pb.EstimateCoinSellAllRequest_CoinIdToSell{CoinIdToSell: p.coinA}, Buy: &pb.EstimateCoinSellAllRequest_CoinIdToBuy{CoinIdToBuy: 0},
 			ValueToSell: "5000000000000000000", GasPrice: 1})
 	})
+	// estimates whose commission is paid in the pool token: the commission conversion runs
+	// through the token's BIP pool and its order book (AddLastSwapStepWithOrders on the live pair)
+	add("EstimateSellFeeTok", func(s *service.Service) (proto.Message, error) {
+		return s.EstimateCoinSell(ctx, &pb.EstimateCoinSellRequest{
+			Sell: &pb.EstimateCoinSellRequest_CoinIdToSell{CoinIdToSell: p.coinA}, Buy: &pb.EstimateCoinSellRequest_CoinIdToBuy{CoinIdToBuy: 0},
+			ValueToSell: "1000000000000000000", Commission: &pb.EstimateCoinSellRequest_CoinIdCommission{CoinIdCommission: p.coinA}, SwapFrom: pb.SwapFrom_pool})
+	})
+	add("EstimateBuyFeeTok", func(s *service.Service) (proto.Message, error) {
+		return s.EstimateCoinBuy(ctx, &pb.EstimateCoinBuyRequest{
+			Sell: &pb.EstimateCoinBuyRequest_CoinIdToSell{CoinIdToSell: p.coinA}, Buy: &pb.EstimateCoinBuyRequest_CoinIdToBuy{CoinIdToBuy: 0},
+			ValueToBuy: "1000000000000000000", Commission: &pb.EstimateCoinBuyRequest_CoinIdCommission{CoinIdCommission: p.coinA}, SwapFrom: pb.SwapFrom_pool})
+	})
 	add("Frozen", func(s *service.Service) (proto.Message, error) {
 		return s.Frozen(ctx, &pb.FrozenRequest{Address: a1})
 	})
